@@ -117,8 +117,22 @@ func runC20(sc C20Sc, c *kit.Case) *kit.Violation {
 	// budgetKey names an excess over the budget: the open finding F11 (DESIGN 10.4) over-credits the limiter
 	// by at most one token per refused rated write, so an excess within that bound in a run that had such
 	// writes is that finding; anything else is a violation of its own
+	// ... and it needs a send that waited for budget (held a reservation) and was cancelled: the announce
+	// traversal's queries (no deadline, ended by Close) at any rate, or - when a token arrives within the
+	// 250 ms the harness gives its queries and the bootstrap - any query or traversal that waits
+	mayCancelWaiter := sc.Traversal == "announce"
+	if r >= 5 {
+		if sc.Traversal != "none" {
+			mayCancelWaiter = true
+		}
+		for _, q := range sc.Queries {
+			if q.RL == "default" || q.RL == "wait-on-retries" {
+				mayCancelWaiter = true
+			}
+		}
+	}
 	budgetKey := func(excess float64) string {
-		if refunds > 0 && excess <= float64(refunds) {
+		if refunds > 0 && mayCancelWaiter && excess <= float64(refunds) {
 			return "C20:refund-then-cancelled-wait-overcredits"
 		}
 		return "C20:send-budget-exceeded"
